@@ -4,7 +4,7 @@
    correspondence); lookup_register / REGISTERS are GENERATED from asm.py (Gen/Encoders.v); py_int_lit is the model of
    int(s, 0) (Base/PyBase.v); regnum is the documented reading of a register operand (Spec/Operands.v). *)
 From Coq Require Import ZArith List String Ascii.
-From BB Require Import Base.PyBase Gen.Encoders Spec.RV32 Spec.Operands Model.Lexer Proofs.LexSep Proofs.LexFront.
+From BB Require Import Base.PyBase Gen.Encoders Spec.RV32 Spec.Operands Model.Items Model.Lexer Model.Parser Proofs.LexSep Proofs.LexFront Proofs.ParseForms.
 Import ListNotations.
 Open Scope Z_scope.
 
@@ -52,3 +52,22 @@ Theorem C13_int_spelling : forall v : Z, 0 <= v < 65536 ->
   py_int_lit (dec_of_Z (- v)) = Some (- v).
 Proof. exact int_spellings. Qed.
 Print Assumptions C13_int_spelling.
+
+(* `imm(reg)` versus `reg, imm` for the base + offset instructions: both token lists parse to the SAME item (parser model),
+   for every register and offset token; the mnemonics covered are exactly the GENERATED BASE_OFFSET_INSTRUCTIONS table.
+   (rd <> "=": `lw = ...` would be a constant definition; off <> "(": a single-token offset, the documented freedom.) *)
+Theorem C13_imm_reg_loads : forall l name rd off rs1,
+  In name load_names -> String.eqb rd "=" = false -> String.eqb off "(" = false ->
+  parse_item l [name; rd; off; "("; rs1; ")"]%string = parse_item l [name; rd; rs1; off].
+Proof. exact load_forms. Qed.
+Print Assumptions C13_imm_reg_loads.
+Theorem C13_imm_reg_stores : forall l name rs2 off rs1,
+  In name store_names -> String.eqb rs2 "=" = false -> String.eqb rs1 "=" = false -> String.eqb off "(" = false ->
+  parse_item l [name; rs2; off; "("; rs1; ")"]%string = parse_item l [name; rs1; rs2; off].
+Proof. exact store_forms. Qed.
+Print Assumptions C13_imm_reg_stores.
+Theorem C13_imm_reg_table :
+  forallb (fun n => mem_str n (load_names ++ store_names)) BASE_OFFSET_INSTRUCTIONS_final = true /\
+  forallb (fun n => mem_str n BASE_OFFSET_INSTRUCTIONS_final) (load_names ++ store_names) = true.
+Proof. exact forms_cover_table. Qed.
+Print Assumptions C13_imm_reg_table.
